@@ -357,7 +357,7 @@ class HeavyHitters:
             raise ValueError(f"{max_key_len=:}. Must be an integer [1, 255]")
         if phi is not None and not isinstance(phi, float_types):
             raise ValueError(f"{phi=:}. Must be None or a positive float")
-        if isinstance(phi, float_types) and (phi <= 0.0 or phi >= 1.0):
+        if isinstance(phi, float_types) and (phi <= 0.0 or phi > 1.0):
             raise ValueError(f"{phi=:}. Must be float between (0.0, 1.0)")
         if not isinstance(shared_memory, bool):
             raise ValueError(f"{type(shared_memory)=:}. Must be a boolean")
